@@ -32,11 +32,9 @@ def worker_closures(crate, root):
     return out
 
 
-_pf = {}
-
-
 def fn_panic_free(crate, path, stack=()):
     """no panic can start in this body or in any crate function it calls"""
+    _pf = crate.__dict__.setdefault("_pf_cache", {})
     if path in _pf:
         return _pf[path]
     if path in stack:
